@@ -237,16 +237,23 @@ pub fn gen_world(r: &mut Rng, o: &GenOpts) -> World {
     let mut files_left = o.max_files.max(ncr);
     for (i, name) in cr_names.iter().take(ncr).enumerate() {
         let remaining_crates = ncr - i - 1;
-        let maxf = (files_left - remaining_crates).min(5).max(1);
-        let nf = r.range(1, maxf as u64) as usize;
+        let wide = o.max_files > 40;
+        let maxf = (files_left - remaining_crates).min(if wide { 120 } else { 5 }).max(1);
+        let nf = if wide { maxf } else { r.range(1, maxf as u64) as usize };
         files_left -= nf;
-        let mut fs: Vec<&str> = FILES.to_vec();
+        let mut fs: Vec<String> = FILES.iter().map(|s| s.to_string()).collect();
+        if wide {
+            // many small modules, a few levels deep
+            for k in 0..nf {
+                fs.push(format!("src/gen/m{}/part_{k}.rs", k % 7));
+            }
+        }
         r.shuffle(&mut fs);
         let mut files: Vec<String> = fs.iter().take(nf).map(|s| s.to_string()).collect();
         files.sort();
         crates.push(GCrate { dir: name.to_string(), files });
     }
-    let nitems = r.range(2, o.max_items as u64) as usize;
+    let nitems = if o.max_files > 40 { o.max_items } else { r.range(2, o.max_items as u64) as usize };
     let mut pool: Vec<&str> = NAMES.to_vec();
     r.shuffle(&mut pool);
     let mut items: Vec<GItem> = vec![];
@@ -276,6 +283,10 @@ pub fn gen_world(r: &mut Rng, o: &GenOpts) -> World {
         let mut name = pool[i % pool.len()].to_string();
         if i >= pool.len() {
             name.push_str(&format!("{i}"));
+        }
+        if o.max_files > 40 {
+            // wide worlds: spread the items, one or two per file
+            let _ = &name;
         }
         if o.same_names && !names.is_empty() && r.chance(1, 8) && kind != Kind::Const {
             name = r.pick(&names).clone();
@@ -912,6 +923,7 @@ pub const EDGES: &[Edge] = &[
     Edge { id: "const_item", chunk: "#[typeshare]\npub const EDGE_LIMIT: u32 = 7;\n", kind: FileKind::Text, raw_hex: "", must_fail: false },
     Edge { id: "dangling_symlink", chunk: "", kind: FileKind::DanglingSymlink, raw_hex: "", must_fail: false },
     Edge { id: "dir_named_rs", chunk: "", kind: FileKind::Directory, raw_hex: "", must_fail: false },
+    Edge { id: "symlink_loop", chunk: "", kind: FileKind::SymlinkLoop, raw_hex: "", must_fail: false },
     Edge { id: "only_unannotated", chunk: "pub struct NotShared { pub v: u64 }\n", kind: FileKind::Text, raw_hex: "", must_fail: false },
     Edge { id: "generic_struct", chunk: "#[typeshare]\npub struct Page<T> { pub items: Vec<T>, pub next: Option<String> }\n", kind: FileKind::Text, raw_hex: "", must_fail: false },
     Edge { id: "char_and_unit", chunk: "#[typeshare]\npub struct Odd { pub c: char, pub u: (), pub a: [u8; 4], pub s: Vec<()> }\n", kind: FileKind::Text, raw_hex: "", must_fail: false },
